@@ -181,3 +181,27 @@ package state
 //@   ensures [earlierSnapshotsKept] forall k int :: 0 <= k && k < len(s.validRevisions) ==> s.validRevisions[k] == old(s.validRevisions[k])
 //@   ensures [journalAtRecordedLength] len(s.journal.entries) == old(s.validRevisions[idx].journalIndex)
 //@   atcall journal.revert requires [toTheRecordedLengthOfThatId] j == s.journal && statedb == s && (exists k int :: 0 <= k && k < len(s.validRevisions) && s.validRevisions[k].id == revid && snapshot == s.validRevisions[k].journalIndex)
+
+// ---------------------------------------------------------------- C08: the access list copy is independent
+//@ func (a *accessList) Copy() (cp *accessList)
+//@   for C08
+//@   requires a != nil
+//@   ensures [ownObject] fresh(cp) && fresh(cp.addresses) && fresh(cp.slots) && len(cp.slots) == len(a.slots)
+//@   ensures [ownSlotSets] forall i int :: 0 <= i && i < len(cp.slots) ==> fresh(cp.slots[i])
+//@   loop 2:
+//@     invariant 0 <= iter && iter <= len(a.slots) && fresh(cp) && fresh(cp.slots) && len(cp.slots) == len(a.slots) && cp.slots == pre(cp.slots)
+//@     invariant forall k int :: 0 <= k && k < iter ==> fresh(cp.slots[k])
+
+// Re-creating an account over an existing one journals whether the address already carried this
+// block's destruct mark (so that reverting the re-creation restores exactly that mark).
+// getDeletedStateObject may load and cache the account (trie/snapshot access is outside the subset); the
+// object it returns is the cached object of that address.
+//@ trusted func (s *StateDB) getDeletedStateObject(addr common.Address) (r *stateObject)
+//@   requires s != nil
+//@   modifies s.stateObjects[_]
+//@   ensures r != nil ==> r.address == addr
+//@ func (s *StateDB) createObject(addr common.Address) (newobj, prev *stateObject)
+//@   for C08
+//@   requires s != nil && s.journal != nil && s.journal.dirties != nil && s.stateObjectsDestruct != nil
+//@   modifies *
+//@   atcall journal.append requires [journalsTheDestructMarkOfTheAddress] dyntype(entry) == typeid(resetObjectChange) ==> unbox(entry, resetObjectChange).prevdestruct == old(has(s.stateObjectsDestruct, addr)) && unbox(entry, resetObjectChange).prev != nil && unbox(entry, resetObjectChange).prev.address == addr
